@@ -134,9 +134,12 @@ def main():
                 continue
         offered = [d_ for d_, k in G.decoders.items() if k.allowed_codes is None or cls in k.allowed_codes]
         for dec_name in offered:
+            if dec_name == 'MBP' and not (klass.dimension == 2 and cls in ('Toric2DCode', 'Planar2DCode', 'RotatedPlanar2DCode')):
+                continue      # MBP (pure-Python message passing) only on the small 2-D lattices
+            combos = [('None', 'None')] + ([('None', klass.deformation_names[0]), (klass.deformation_names[0], 'None')] if klass.deformation_names else [])
             if dec_name == 'MBP':
-                continue
-            for (cdef, ndef) in [('None', 'None')] + ([('None', klass.deformation_names[0]), (klass.deformation_names[0], 'None')] if klass.deformation_names else []):
+                combos = combos * 5      # several syndromes: few of them are still unconverged after 1-2 iterations
+            for (cdef, ndef) in combos:
                 if dec_name in ('Matching', 'SweepMatch', 'RotatedSweepMatch', 'Union-Find', 'XCube Matching') and cdef != 'None':
                     continue
                 em_name = rng.choice(list(G.noise_directions))
@@ -144,14 +147,18 @@ def main():
                 if cdef != 'None':
                     code.deform(cdef)
                 e = np.zeros(2 * code.n, dtype='uint8')
-                for q in rng.sample(range(code.n), min(2, code.n)):
+                for q in rng.sample(range(code.n), min(3 if dec_name == 'MBP' else 2, code.n)):
                     e[q + rng.choice([0, code.n])] = 1
                 syn = [int(b) for b in code.measure_syndrome(e)]
+                # slider values other than the library defaults, so that a dropped option shows
+                bp_iter = rng.choice([1, 2]) if dec_name == 'MBP' else rng.choice([1, 3, 10])
+                alpha, beta = rng.choice([(0.4, 0), (0.75, 0), (0.5, 0.1)])
                 body = {'Lx': size[0], 'Ly': size[1], 'code_name': name, 'code_deformation_name': cdef, 'syndrome': syn, 'p': 0.1,
-                        'noise_deformation_name': ndef, 'max_bp_iter': 10, 'alpha': 0.4, 'beta': 0, 'decoder': dec_name, 'error_model': em_name}
+                        'noise_deformation_name': ndef, 'max_bp_iter': bp_iter, 'alpha': alpha, 'beta': beta, 'decoder': dec_name, 'error_model': em_name}
                 if len(size) == 3:
                     body['Lz'] = size[2]
-                rec = {'menu': name, 'cls': cls, 'size': list(size), 'decoder': dec_name, 'code_deformation': cdef, 'noise_deformation': ndef, 'error_model': em_name}
+                rec = {'menu': name, 'cls': cls, 'size': list(size), 'decoder': dec_name, 'code_deformation': cdef, 'noise_deformation': ndef, 'error_model': em_name,
+                       'max_bp_iter': bp_iter, 'alpha': alpha, 'beta': beta, 'syndrome': syn}
                 try:
                     with contextlib.redirect_stdout(io.StringIO()):
                         npr.default_rng = lambda *a, **k: real_rng(1234)
@@ -161,7 +168,9 @@ def main():
                         em = PauliErrorModel(*G.noise_directions[em_name], None if ndef == 'None' else ndef)
                         kw = {}
                         if dec_name == 'BP-OSD':
-                            kw = {'max_bp_iter': 10, 'osd_order': 0}
+                            kw = {'max_bp_iter': bp_iter, 'osd_order': 0}
+                        if dec_name == 'MBP':
+                            kw = {'max_bp_iter': bp_iter, 'alpha': alpha, 'beta': beta}
                         lib = G.decoders[dec_name](code, em, 0.1, **kw).decode(np.array(syn))
                         if r.status_code == 200:
                             d = r.get_json(force=True)
